@@ -598,3 +598,81 @@ def safe_sorted_case_insensitively(modules: list[Node]) -> list[str]:
 
 def safe_constant_prefix_tuple(module: Node) -> bool:
     return module.startswith(("_", "test")) or SEPARATOR in module
+
+
+# ----------------------------------------------------------------------------- boundary evidence away from the raw test
+
+
+def safe_nested_next_character_test(module: Node, listed: list[Node], aliases: dict[str, str]) -> str:
+    for candidate in listed:
+        if module == candidate:
+            return aliases[candidate]
+        if len(module) > len(candidate) and module.startswith(candidate):
+            tail = module[len(candidate):]
+            if tail[0] == ".":
+                return aliases[candidate] + tail
+    return module
+
+
+def unsafe_nested_test_of_wrong_character(module: Node, listed: list[Node], aliases: dict[str, str]) -> str:
+    for candidate in listed:
+        if len(module) > len(candidate) and module.startswith(candidate):
+            tail = module[len(candidate):]
+            if tail[0] != "_":
+                return aliases[candidate] + tail
+    return module
+
+
+def safe_partition_of_remainder(parent: Node, module: Node) -> bool:
+    start, separator, _ = module[len(parent):].partition(".")
+    if start:
+        return False
+    if not separator and len(module) != len(parent):
+        return False
+    return module.startswith(parent)
+
+
+class _DottedName:
+    def __init__(self, full_name: Node) -> None:
+        self.full_name = full_name
+
+    def _separator_positions(self) -> list[int]:
+        return [position for position, char in enumerate(self.full_name) if char == "."]
+
+    def safe_is_below(self, other: Node) -> bool:
+        end_of_other = len(other)
+        if end_of_other not in self._separator_positions():
+            return False
+        return self.full_name[:end_of_other] == other
+
+    def unsafe_is_below(self, other: Node) -> bool:
+        end_of_other = len(other)
+        if end_of_other > len(self.full_name):
+            return False
+        return self.full_name[:end_of_other] == other
+
+
+def safe_early_exit_then_raw(module: Node, other: Node) -> bool:
+    if module != other and module[len(other):len(other) + 1] != ".":
+        return False
+    return module.startswith(other)
+
+
+def unsafe_effect_before_the_test_of_the_next_character(module: Node, other: Node, seen: list[str]) -> bool:
+    if module.startswith(other):
+        seen.append(other)
+        if module[len(other):][:1] in ("", "."):
+            return True
+    return False
+
+
+def safe_position_of_dotted_prefix_is_zero(module: Node, other: Node) -> bool:
+    try:
+        first = (module + ".").index(other + ".")
+    except ValueError:
+        return False
+    return first == 0 or f"{module}.".find(f"{other}.") == 0
+
+
+def unsafe_dotted_name_found_anywhere(module: Node, other: Node) -> bool:
+    return (module + ".").find(other + ".") != -1
